@@ -127,6 +127,13 @@ async fn a_write(op: &Value) -> Value {
             drop(w);
             return ok(json!({"dropped": true, "was_pending": pending}));
         }
+        if usize_list(op, "abandon_chunks").contains(&i) {
+            // the caller gives up on this write after one poll (select!/timeout) and moves on to other data
+            let fut = w.write(chunk);
+            futures::pin_mut!(fut);
+            let _ = futures::poll!(fut);
+            continue;
+        }
         if repoll.contains(&i) {
             let fut = w.write(chunk);
             futures::pin_mut!(fut);
